@@ -31,6 +31,36 @@ def wire_session(env, caps, log):
     return c
 
 
+def mutating_application_probe():
+    """each statement of a multi-statement text receives the attributes the CLIENT attached - also when the application's
+    handler of an earlier statement of the same text changed the mapping it was given (popped an entry, added one)"""
+    env = impl.Env(own_sleep=False)
+    try:
+        log = []
+
+        class MS(impl.Session):
+            async def query(self, expression, sql, attrs):
+                log.append(dict(attrs))
+                attrs.pop("trace", None)
+                attrs["seen_by_first"] = "yes"
+                return [(1,)], ["a"]
+
+        srv = impl.make_server(env, MS)
+        c = impl.Conn(env, srv, cid=0)
+        env.settle(); c.take()
+        c.feed(cl.frame(cl.handshake_response(user=b"u", caps=cl.BASE_CAPS | cl.CLIENT_QUERY_ATTRIBUTES, charset=45), 1)); c.take()
+        sent = [pk.P(b"trace", pk.T_VAR_STRING, False, b"1"), pk.P(b"n", pk.T_VAR_STRING, False, b"x")]
+        c.feed(cl.frame(bytes([cl.COM_QUERY]) + pk.encode_com_query(sent, b"SELECT a FROM t; SELECT b FROM u; INSERT INTO t VALUES (1)"), 0)); c.take()
+        c.eof()
+        want = {"trace": "1", "n": "x"}
+        if log != [want, want, want]:
+            return dict(problem="the statements of one text do not all receive the attributes the client attached (the application changed the mapping it was "
+                                "handed for the first one)", sent=repr(want), received=repr(log))
+        return None
+    finally:
+        env.close()
+
+
 def run(ctx: core.Ctx):
     rng = ctx.rng
     pr = core.check_proofs(ctx, "Props/C17", headers=[pk.HEADER])
@@ -245,6 +275,10 @@ def run(ctx: core.Ctx):
         env.close()
     ctx.evals += nh
 
+    mp = mutating_application_probe()
+    ctx.evals += 3
+    if mp and witness is None:
+        witness = dict(kind="attributes-shared-between-statements", **mp)
     if witness is not None:
         core.report_violation(ctx, "query attributes / SQL text do not reach the application as sent", witness)
     if (not pr["ok"] or disagreements) and not ctx.violations:
